@@ -33,12 +33,13 @@ pub fn solve_low<F: IVP, S: SolOut>(
     let r = match m {
         Meth::RK4 => {
             let h = o.first_step.unwrap_or((xend - x0) / 100.0);
-            RK4::builder().maybe_max_steps(o.max_steps).build().solve(f, x0, y0, xend, h, Some(solout))
+            RK4::builder().maybe_max_steps(o.max_steps).maybe_dense_output(o.dense).build().solve(f, x0, y0, xend, h, Some(solout))
         }
         Meth::RK23 => RK23::builder()
             .maybe_first_step(o.first_step)
             .maybe_max_step(o.max_step)
             .maybe_max_steps(o.max_steps)
+            .maybe_dense_output(o.dense)
             .build()
             .solve(f, x0, y0, xend, rtol.to_ivp(), atol.to_ivp(), Some(solout)),
         Meth::DOPRI5 => DOPRI5::builder()
@@ -61,7 +62,8 @@ pub fn solve_low<F: IVP, S: SolOut>(
                 .maybe_max_step(o.max_step)
                 .maybe_max_steps(o.max_steps)
                 .maybe_newton_tol(o.newton_tol)
-                .maybe_newton_maxiter(o.newton_maxiter);
+                .maybe_newton_maxiter(o.newton_maxiter)
+                .maybe_dense_output(o.dense);
             if o.identity_mass {
                 b.mass_storage(MatrixStorage::Identity).build().solve(f, x0, y0, xend, rtol.to_ivp(), atol.to_ivp(), Some(solout))
             } else {
